@@ -386,6 +386,16 @@ def do_obligation(pid, ob, tier, scratch, fids, known):
             return rec
         # failed: triage counterexamples
         text = open(r['out']).read(); traces = parse_traces(text)
+        if '--slice-formula' in (ob.get('cbmc') or []):
+            # a sliced formula yields a trace without the irrelevant nondet values, which cannot be
+            # replayed in call order: re-ask the solver, unsliced, for the first failing properties only
+            traces = {}
+            for pname, desc in [f for f in r['failed'] if 'unwinding assertion' not in f[1]][:2]:
+                cmd = cbmc_base(ob, cfile) + CBMC_FLAGS + BACKENDS[r['backend']] + [x for x in ob.get('cbmc', []) if x != '--slice-formula'] + ['--trace', '--property', pname]
+                if uw: cmd += ['--unwindset', ','.join(uw)]
+                outp = os.path.join(wd, 'unsliced.%s.out' % re.sub(r'\W', '_', pname))
+                rc2, o2, s2, _ = run(cmd, timeout=timeout, mem_gb=mem, stdout_path=outp, env=dict(os.environ, TMPDIR=wd))
+                traces.update(parse_traces(o2)); rec['queries'] += 1
         rec['counterexamples'] = []
         confirmed = None; unconfirmed = []; known_hits = []
         # replay each distinct failing property (a few at most)
